@@ -141,14 +141,30 @@ func errsMakeObj(text string, n int) errsObj {
 
 // errsWrap adds one fmt.Errorf %w layer.  form selects where the text goes.
 func errsWrap(v error, text string, form int) error {
-	switch form % 3 {
+	switch form % 6 {
 	case 0:
 		return fmt.Errorf("%w | %s", v, text)
 	case 1:
 		return fmt.Errorf("%s: %w", text, v)
+	case 2:
+		return fmt.Errorf("[%s] %w (%d)", text, v, form)
+	case 3: // a layer with two %w: an unrelated plain error next to the chain
+		return fmt.Errorf("%w while handling %s: %w", errsSide, text, v)
+	case 4: // errors.Join: the chain is one branch of a tree
+		return errors.Join(v, errsSide)
 	}
-	return fmt.Errorf("[%s] %w (%d)", text, v, form)
+	return &errsLayer{text: text, inner: v} // a wrapper type with its own Unwrap
 }
+
+var errsSide = errors.New("side condition")
+
+type errsLayer struct {
+	text  string
+	inner error
+}
+
+func (l *errsLayer) Error() string { return l.text + " <" + l.inner.Error() + ">" }
+func (l *errsLayer) Unwrap() error { return l.inner }
 
 // errsObs is everything the property observes of an error value.
 type errsObs struct {
@@ -474,7 +490,7 @@ func driveErrs(opt *Options) error {
 					v, obj = gerrors.EmbedObject(o, v), &o
 				}
 				if d < depth {
-					v = errsWrap(v, errsRandText(rnd, mk, fixed), rnd.Intn(3))
+					v = errsWrap(v, errsRandText(rnd, mk, fixed), rnd.Intn(6))
 				}
 			}
 			w := gerrors.GRPCWrap(v)
